@@ -300,7 +300,135 @@ fn explore(ctx: &Arc<Ctx>, capacity: usize, prefix: Vec<Op>, keys: &[u64], versi
 	(u, s, d)
 }
 
+/// The cache as the readers use it (block tile indexes of versatiles, leaf directories of PMTiles): on one
+/// opened reader every lookup of every sequence of <= 2 (quick) / 3 (thorough) lookups must answer as the same
+/// lookup answers on a freshly opened reader -- for valid containers (incl. PMTiles with two leaf levels) and
+/// for containers whose index blocks are damaged, so that loaders fail.
+fn users(ctx: &Arc<Ctx>) {
+	use crate::codec::{self, PmLayout, VtLayout};
+	use versatiles_container::{PMTilesReader, VersaTilesReader};
+	use versatiles_core::io::DataReaderBlob;
+	use versatiles_core::types::{TileCoord3, TilesReaderTrait};
+	let mut files: Vec<(String, bool, Vec<u8>)> = vec![];
+	let mut truth: Vec<crate::memsource::TileMap> = vec![];
+	for (si, set) in crate::c19cases::small_sets().into_iter().enumerate() {
+		truth.extend(std::iter::repeat(set.clone()).take(1 + PmLayout::all().into_iter().filter(|l| l.leaf_levels >= 1 && l.leaf_size <= 2 && !l.data_reversed && !l.share_offsets).count()));
+		files.push((format!("valid versatiles #{si}"), true, codec::vt_encode(&set, 0x10, 0, b"{}", VtLayout::plain())));
+		for l in PmLayout::all().into_iter().filter(|l| l.leaf_levels >= 1 && l.leaf_size <= 2 && !l.data_reversed && !l.share_offsets) {
+			files.push((format!("valid pmtiles #{si} {} leaf level(s), leaf size {}, run lengths {}", l.leaf_levels, l.leaf_size, l.run_lengths), false, codec::pm_encode(&set, 2, 1, b"{}", l)));
+		}
+	}
+	let n_valid = files.len();
+	// damaged index blocks (C19's generators): keep those that still open and answer at least one lookup with an error
+	let mut damaged: Vec<(bool, Vec<u8>)> = vec![];
+	crate::c19cases::vt_inner(&mut |b: &[u8]| damaged.push((true, b.to_vec())));
+	crate::c19cases::pm_inner(&mut |b: &[u8]| damaged.push((false, b.to_vec())));
+	let probes: Vec<TileCoord3> = [(0u8, 0u32, 0u32), (1, 0, 0), (1, 1, 0), (3, 1, 2), (3, 2, 2), (9, 255, 256), (9, 255, 257), (9, 256, 256), (9, 257, 256)].iter().map(|k| TileCoord3 { x: k.1, y: k.2, z: k.0 }).collect();
+	let rt = tokio::runtime::Builder::new_current_thread().build().unwrap();
+	let open = |vt: bool, bytes: &[u8]| -> Option<Box<dyn TilesReaderTrait>> {
+		let b = bytes.to_vec();
+		crate::par::catch(|| {
+			let rt = tokio::runtime::Builder::new_current_thread().build().unwrap();
+			rt.block_on(async move {
+				if vt {
+					VersaTilesReader::open_reader(Box::new(DataReaderBlob::from(b))).await.ok().map(|r| r.boxed())
+				} else {
+					PMTilesReader::open_reader(Box::new(DataReaderBlob::from(b))).await.ok().map(|r| r.boxed())
+				}
+			})
+		})
+		.ok()
+		.flatten()
+	};
+	let answer = |rt: &tokio::runtime::Runtime, r: &dyn TilesReaderTrait, c: &TileCoord3| -> String {
+		match crate::par::catch(|| rt.block_on(r.get_tile_data(c))) {
+			Ok(Ok(Some(b))) => format!("tile {:016x}/{}", crate::ctx::fnv(b.as_slice()), b.len()),
+			Ok(Ok(None)) => "none".into(),
+			Ok(Err(_)) => "error".into(),
+			Err(p) => format!("panic at {}", crate::par::panic_site(&p)),
+		}
+	};
+	let mut kept = 0usize;
+	let cap = ctx.tier.pick(60usize, 600usize);
+	for (i, (vt, bytes)) in damaged.iter().enumerate() {
+		if kept >= cap {
+			break;
+		}
+		if let Some(r) = open(*vt, bytes) {
+			let cold: Vec<String> = probes.iter().map(|c| open(*vt, bytes).map(|f| answer(&rt, f.as_ref(), c)).unwrap_or_default()).collect();
+			let _ = r;
+			if cold.iter().any(|a| a == "error") && cold.iter().any(|a| a.starts_with("tile")) {
+				files.push((format!("{} with a damaged index block (C19 case #{i})", if *vt { "versatiles" } else { "pmtiles" }), *vt, bytes.clone()));
+				kept += 1;
+			}
+		}
+	}
+	let depth = ctx.tier.pick(2usize, 3usize);
+	let (ctxr, fr, pr, truthr): (&Ctx, _, _, _) = (ctx, &files, &probes, &truth);
+	crate::par::par_for(files.len(), |fi| {
+		let (name, vt, bytes) = &fr[fi];
+		let rt = tokio::runtime::Builder::new_current_thread().build().unwrap();
+		let cold: Vec<String> = pr.iter().map(|c| open(*vt, bytes).map(|f| answer(&rt, f.as_ref(), c)).unwrap_or_else(|| "unopenable".into())).collect();
+		// valid containers: the fresh reader's answer is the encoded tile (get-or-compute yields the value of that key)
+		if fi < n_valid {
+			for (c, a) in pr.iter().zip(cold.iter()) {
+				let want = match truthr[fi].get(&(c.z, c.x, c.y)).filter(|v| !v.is_empty()) {
+					Some(v) => format!("tile {:016x}/{}", crate::ctx::fnv(v), v.len()),
+					None => "none".to_string(),
+				};
+				if *a != want {
+					ctxr.violation(
+						&format!("{} reader: a lookup through the index cache does not return the tile stored under that coordinate", if *vt { "versatiles" } else { "pmtiles" }),
+						&format!("{name}: ({},{},{}) answers '{a}', stored: '{want}'", c.z, c.x, c.y),
+						json!({"users": true, "file": name, "sequence": []}),
+					);
+				}
+			}
+		}
+		let n = pr.len();
+		let mut seqs: Vec<Vec<usize>> = (0..n).map(|a| vec![a]).collect();
+		let mut frontier = seqs.clone();
+		for _ in 1..depth {
+			let mut next = vec![];
+			for f in &frontier {
+				for a in 0..n {
+					let mut g = f.clone();
+					g.push(a);
+					next.push(g);
+				}
+			}
+			seqs.extend(next.iter().cloned());
+			frontier = next;
+		}
+		for q in &seqs {
+			let Some(r) = open(*vt, bytes) else { continue };
+			ctxr.eval();
+			ctxr.transition(q.len() as u64);
+			for (step, &a) in q.iter().enumerate() {
+				let got = answer(&rt, r.as_ref(), &pr[a]);
+				if got != cold[a] {
+					let c = &pr[a];
+					ctxr.violation(
+						&format!("{} reader: a lookup on a used reader answers differently from the same lookup on a fresh reader", if *vt { "versatiles" } else { "pmtiles" }),
+						&format!("{name}: lookups {:?}: step {step} at ({},{},{}) answers '{got}', a fresh reader answers '{}'", q.iter().map(|i| (pr[*i].z, pr[*i].x, pr[*i].y)).collect::<Vec<_>>(), c.z, c.x, c.y, cold[a]),
+						json!({"users": true, "file": name, "sequence": q}),
+					);
+					break;
+				}
+			}
+		}
+		ctxr.state(seqs.len() as u64);
+		ctxr.trace(seqs.len() as u64);
+		if fi >= n_valid || name.contains("pmtiles") {
+			ctxr.nontrivial(crate::ctx::fnv_str(name));
+		}
+	});
+	ctx.extra("cache_users", json!({"valid_containers": n_valid, "containers_with_damaged_index_blocks": files.len() - n_valid, "lookup_sequences_per_container": (1..=depth).map(|d| probes.len().pow(d as u32)).sum::<usize>(), "coordinates": probes.len()}));
+}
+
 pub fn run(ctx: Arc<Ctx>) {
+	users(&ctx);
+	ctx.rule("in-tree users: every sequence of <= 2 (quick) / 3 (thorough) lookups over 9 coordinates on one opened versatiles / PMTiles reader (valid containers incl. one and two leaf levels; containers with damaged index blocks whose loaders fail) answers like a fresh reader");
 	ctx.rule(
 		"stateright BFS over the real LimitedCache<u64,(u64,u32)>; state = op history, dedup key = sorted (key,value,stamp rank) from verif_snapshot; \
 		 alphabet get/add/get_or_set(ok|err) x keys x value versions; non-trivial = distinct canonical states in which the cache is full (next insertion evicts)",
@@ -386,6 +514,13 @@ fn count_full_states(ctx: &Arc<Ctx>, caps: &[usize]) {
 }
 
 pub fn replay(ctx: Arc<Ctx>, case: &Value) {
+	if case.get("users").is_some() {
+		// the users part is small: re-run it as a whole, twice
+		println!("  case: {case}");
+		users(&ctx);
+		users(&ctx);
+		return;
+	}
 	let capacity = case["capacity"].as_u64().unwrap() as usize;
 	let hist: Vec<Op> = serde_json::from_value(case["history"].clone()).expect("history");
 	let mut obs = vec![];
